@@ -18,7 +18,7 @@ RULE = ('histories of up to 70 operations on a full in-process client (real cond
         '1-4 publications, exclusive publications, subscriptions, counters and destinations with answers in any order, lookups, handle drops, '
         'clock jumps and close; a case is non-trivial when it contains at least one answer event and one lookup; distinct = distinct histories')
 ASSUMPTIONS = [
-    'the command ring has room (the harness drains it after every operation) and strings fit the 512-byte scratch buffer (C13)',
+    'the capacity arithmetic of the command ring is C06\'s: here the ring either has room (the harness drains it after every operation) or, between SetRingFull true / false, refuses every command; strings fit the 512-byte scratch buffer (C13)',
     'driver events are well formed: ASCII strings, counter ids inside the counters buffer, an existing log file with legal geometry, '
     'exclusive-publication answers carry registration id = correlation id; error code 4 (channel endpoint) is not generated',
     'callbacks do not call back into the client; the clock stays below 2^62 and above the linger time-out (C11/C12)',
